@@ -119,6 +119,10 @@ class Run:
             for c in range(self.nctx):
                 r = self.eng.rows(f"REPLAY {tname(u)} FOR {cname(c)}")
                 o[f"rp{u}_{c}"] = [int(x["k"]) for x in r["rows"] if x.get("k") is not None]
+        if self.ntypes > 1 and self.cfg.get("wildcard_replay"):
+            for c in range(self.nctx):
+                r = self.eng.rows(f"REPLAY FOR {cname(c)}")
+                o[f"rpw{c}"] = [int(x["k"]) for x in r["rows"] if x.get("k") is not None]
         d = self.eng.dir_digest(hashes=True).get("shard-0", {"segs": {}, "wal": {}, "other": []})
         o["dirs"] = sorted(int(x) for x in d["segs"])
         o["wal"] = {int(re.sub(r"\D", "", f)): n for f, n in d["wal"].items() if f.endswith(".log")}
